@@ -13,7 +13,7 @@ var confirmedCounts = map[string]map[string][2]int{ // rule -> prop -> {default,
 	"R4":  {"C03": {11, 11}, "C11": {11, 11}},
 	"R5":  {"C11": {9, 11}},
 	"R6":  {"C04": {9, 9}, "C16": {0, 30}, "C17": {26, 26}, "C18": {17, 42}, "C19": {17, 72}, "C20": {9, 9}},
-	"R7":  {"C17": {26, 29}, "C19": {22, 25}},
+	"R7":  {"C17": {26, 29}, "C19": {22, 38}},
 	"R8":  {"C18": {19, 23}},
 	"R9":  {"C20": {15, 15}},
 	"R10": {"C02": {62, 71}, "C05": {62, 71}, "C10": {62, 71}},
@@ -32,16 +32,16 @@ var confirmedCounts = map[string]map[string][2]int{ // rule -> prop -> {default,
 	"R23": {"C14": {0, 20}, "C16": {0, 20}},
 	"R24": {"C05": {4, 4}, "C06": {5, 5}, "C13": {2, 2}, "C15": {1, 3}},
 	"R25": {"C05": {10, 10}, "C06": {18, 18}, "C09": {17, 17}, "C13": {9, 9}, "C15": {1, 5}},
-	"R26": {"C02": {1, 1}, "C03": {4, 4}, "C04": {3, 3}, "C05": {5, 5}, "C06": {4, 4}, "C13": {2, 2}},
+	"R26": {"C02": {1, 1}, "C03": {4, 4}, "C04": {3, 3}, "C05": {6, 6}, "C06": {5, 5}, "C13": {2, 2}},
 	"R27": {"C02": {6, 6}, "C03": {2, 2}, "C04": {3, 3}, "C05": {1, 1}, "C09": {12, 12}},
-	"R28": {"C01": {3, 3}, "C06": {11, 11}, "C09": {5, 5}, "C13": {5, 5}},
+	"R28": {"C01": {3, 3}, "C06": {15, 15}, "C08": {4, 4}, "C09": {5, 5}, "C13": {6, 6}},
 	"R29": {"C01": {7, 7}, "C02": {2, 2}, "C06": {7, 7}},
 	"R30": {"C01": {2, 2}, "C09": {2, 2}},
 	"R31": {"C01": {2, 2}, "C03": {2, 2}, "C06": {1, 1}, "C07": {3, 3}, "C12": {1, 1}},
-	"R32": {"C06": {7, 7}, "C08": {7, 7}, "C09": {7, 7}},
+	"R32": {"C01": {7, 7}, "C06": {7, 7}, "C08": {7, 7}, "C09": {7, 7}},
 	"R33": {"C02": {2, 2}, "C05": {2, 2}, "C06": {1, 1}},
 	"R34": {"C06": {2, 2}},
-	"R35": {"C12": {10, 10}, "C13": {3, 3}},
+	"R35": {"C12": {11, 11}, "C13": {3, 3}},
 	"R36": {"C01": {6, 6}, "C06": {6, 6}, "C07": {3, 3}, "C09": {8, 8}},
 	"R37": {"C01": {3, 3}, "C06": {3, 3}},
 }
